@@ -16,7 +16,10 @@ def run(ctx):
         nominal = {"w": 5, "h": 4, "c": 1, "p": 8, "levels": 2, "cbw": 16, "cbh": 16, "layers": 1, "buf": "req"}
         def off(s):
             return sum(1 for k, v in nominal.items() if s[k] != v)
-        scn = [s for s in scn if off(s) <= 1 or rnd.random() < 0.34]
+        geom = ("w", "h", "c", "p", "buf")     # pairs inside the geometry (products, sign cancellation, overflow) are always run
+        def geompair(s):
+            return all(s[k] == v for k, v in nominal.items() if k not in geom)
+        scn = [s for s in scn if off(s) <= 1 or geompair(s) or rnd.random() < 0.34]
     scnf = os.path.join(wd, "scn.ndjson")
     with open(scnf, "w") as f:
         for s in scn:
@@ -43,7 +46,7 @@ def run(ctx):
         rule="tuple = (encoder, width, height, components, bit depth, quality / NEAR / predictor / levels / code-block / layers, buffer "
              "length class) enumerated by TLC (spec/ArgsGen.tla): the nominal tuple, every single off-nominal argument over boundary "
              "values (-1, 0, 1, 2, 255..257, 2^15, 2^16-1, 2^16, 2^16+1; depth 0..32; buffer 0, 1, required-1, required+1, first "
-             "row only, half), and every pair of off-nominal arguments (quick: a seeded third of the pairs); plus codec-level calls "
+             "row only, half), and every pair of off-nominal arguments (quick: every pair inside width/height/components/depth/buffer, a seeded third of the other pairs); plus codec-level calls "
              "on the 14 registered syntaxes (nil / foreign / default parameters, zero frames, empty, short, first-row-only frames, "
              "zero Rows/Columns/SPP/BitsAllocated, 4 samples, 16 byte planes). TLC (ArgsTrace) decides with the Representable "
              "predicate of spec/Args.tla. distinct_nontrivial = distinct (encoder, outcome, buffer class, dims, components, depth)",
